@@ -42,3 +42,63 @@ pub fn src_all() -> [Src; 4] {
 pub fn _use() {
     let _ = Fmt::from_mnemonic(b"x");
 }
+
+// ---- realistic definitions next to the generated corpus: the enumerations instruments actually declare, with variant
+// identifiers and mnemonics a maintainer could be tempted to special-case (ON/OFF, MIN/MAX/DEF, TRUE/FALSE, ...)
+use crate::props::enums_corpus::EnumInfo;
+use scpi::parser::response::ResponseData;
+
+macro_rules! real_enum {
+    ($name:ident : $($var:ident = $mn:literal),+ $(,)?) => {
+        #[derive(Copy, Clone, PartialEq, Debug, scpi_derive::ScpiEnum)]
+        pub enum $name { $( #[scpi(mnemonic = $mn)] $var ),+ }
+        impl $name {
+            const ALL: &'static [$name] = &[$($name::$var),+];
+            fn idx(&self) -> usize { Self::ALL.iter().position(|v| v == self).unwrap() }
+            pub const INFO: EnumInfo = EnumInfo {
+                name: stringify!($name),
+                mnemonics: &[$($mn as &[u8]),+],
+                field: &[$( { let _ = $mn; false } ),+],
+                from_mnemonic: |s| $name::from_mnemonic(s).map(|v| v.idx()),
+                mnemonic_of: |i| $name::ALL[i].mnemonic(),
+                short_form_of: |i| $name::ALL[i].short_form(),
+                try_from_token: |t| $name::try_from(t).map(|v| v.idx()),
+                format: |i| { let mut out: Vec<u8> = Vec::new(); $name::ALL[i].format_response_data(&mut out)?; Ok(out) },
+            };
+        }
+    };
+}
+
+real_enum!(OnOff: On = b"ON", Off = b"OFF");
+real_enum!(AutoOnOff: Auto = b"AUTO", On = b"ON", Off = b"OFF");
+real_enum!(OffOnOnce: Off = b"OFF", On = b"ON", Once = b"ONCE");
+real_enum!(MinMaxDef: Minimum = b"MINimum", Maximum = b"MAXimum", Default = b"DEFault");
+real_enum!(UpDown: Up = b"UP", Down = b"DOWN");
+real_enum!(InfNinfNan: Infinity = b"INFinity", NegInfinity = b"NINFinity", Nan = b"NAN");
+real_enum!(TrigSource: Immediate = b"IMMediate", External = b"EXTernal", Bus = b"BUS", Internal2 = b"INTernal2", Timer = b"TIMer", Manual = b"MANual");
+real_enum!(Slope: Positive = b"POSitive", Negative = b"NEGative", Either = b"EITHer");
+real_enum!(DataFormat: Ascii = b"ASCii", Real = b"REAL", Integer = b"INTeger", Packed = b"PACKed", Hex = b"HEXadecimal", Octal = b"OCTal", Binary = b"BINary");
+real_enum!(ByteOrder: Normal = b"NORMal", Swapped = b"SWAPped");
+real_enum!(Coupling: Dc = b"DC", Ac = b"AC", Ground = b"GROund");
+real_enum!(Function: Voltage = b"VOLTage", Current = b"CURRent", Resistance = b"RESistance", FResistance = b"FRESistance", Frequency = b"FREQuency", Period = b"PERiod", Temperature = b"TEMPerature");
+real_enum!(Channel: Ch1 = b"CH1", Ch2 = b"CH2", Ch3 = b"CH3", Ch4 = b"CH4");
+real_enum!(TrueFalse: True = b"TRUE", False = b"FALSE");
+real_enum!(YesNo: Yes = b"YES", No = b"NO");
+real_enum!(ZeroOne: Zero = b"ZERO", One = b"ONE");
+real_enum!(LowHigh: Low = b"LOW", High = b"HIGH", Medium = b"MEDium");
+real_enum!(NoneAll: None_ = b"NONE", All = b"ALL", Selected = b"SELected");
+real_enum!(Unit: V = b"V", A = b"A", W = b"W", Db = b"DB", Dbm = b"DBM", Hz = b"HZ");
+real_enum!(Single: Only = b"ONLY");
+real_enum!(Windows: Rectangular = b"RECTangular", Hanning = b"HANNing", Hamming = b"HAMMing", Flattop = b"FLATtop", Uniform = b"UNIForm");
+real_enum!(StateE: State = b"STATe", Range = b"RANGe", Sense = b"SENSe", Trace = b"TRACe", Time = b"TIMe");
+
+pub static REALISTIC: &[EnumInfo] = &[
+    OnOff::INFO, AutoOnOff::INFO, OffOnOnce::INFO, MinMaxDef::INFO, UpDown::INFO, InfNinfNan::INFO, TrigSource::INFO, Slope::INFO, DataFormat::INFO, ByteOrder::INFO, Coupling::INFO,
+    Function::INFO, Channel::INFO, TrueFalse::INFO, YesNo::INFO, ZeroOne::INFO, LowHigh::INFO, NoneAll::INFO, Unit::INFO, Single::INFO, Windows::INFO, StateE::INFO,
+];
+
+/// generated corpus + realistic definitions
+pub fn all_enums() -> &'static [&'static EnumInfo] {
+    static ALL: std::sync::OnceLock<Vec<&'static EnumInfo>> = std::sync::OnceLock::new();
+    ALL.get_or_init(|| crate::props::enums_corpus::CORPUS.iter().chain(REALISTIC.iter()).collect())
+}
